@@ -259,9 +259,18 @@ static std::string runDT(int n, int mut, int use, bool indexed)
 	case 20: uname = "Insert(SIZE_MAX,row)"; expect = 'R'; o = attempt([&] { t.Insert(std::numeric_limits<size_t>::max(), t.NewRow(intCol = 5000)); }); break;
 	case 21: uname = "Update(count,row)"; expect = 'R'; o = attempt([&] { t.Update(t.GetCount(), t.NewRow(intCol = 5001)); }); break;
 	case 22: uname = "selection[SIZE_MAX]"; expect = 'R'; o = attempt([&] { volatile int x = sel[std::numeric_limits<size_t>::max()][intCol]; (void)x; }); break;
+	// a selection taken before rows were removed / replaced, used without reading through a row reference
+	case 23: uname = "table.Remove(stale-selection-range)"; expect = (rmod && all.GetCount() > 0) ? 'R' : '?'; o = attempt([&] { t.Remove(all.GetBegin(), all.GetEnd()); }); break;
+	case 24: uname = "table.Assign(stale-selection-range)"; expect = (rmod && all.GetCount() > 0) ? 'R' : '?'; o = attempt([&] { t.Assign(all.GetBegin(), all.GetEnd()); }); break;
+	case 25: uname = "selection.Sort(column)"; expect = rmod ? 'R' : 'A'; o = attempt([&] { all.Sort(intCol); }); break;
+	case 26: uname = "selection.Group(column)"; expect = rmod ? 'R' : 'A'; o = attempt([&] { all.Group(grpCol); }); break;
+	case 27: uname = "selection.GetLowerBound(column==v)"; expect = rmod ? 'R' : 'A'; o = attempt([&] { (void)all.GetLowerBound(intCol == 2); }); break;
+	case 28: uname = "selection.Add(stale-selection-range)"; expect = (rmod && all.GetCount() > 0) ? 'R' : '?'; o = attempt([&] { auto e = t.SelectEmpty(); e.Add(all.GetBegin(), all.GetEnd()); }); break;
+	case 29: uname = "selection-of-selection(reading-filter)"; expect = (rmod && all.GetCount() > 0) ? 'R' : 'A'; o = attempt([&] { DT::Selection s2(all, [] (DT::ConstRowReference r) { return r[intCol] >= 0; }); (void)s2.GetCount(); }); break;
+	case 30: uname = "selection.Sort(lambda)"; expect = (rmod && all.GetCount() > 1) ? 'R' : 'A'; o = attempt([&] { all.Sort([] (DT::ConstRowReference a, DT::ConstRowReference b) { return a[intCol] < b[intCol]; }); }); break;
 	default: return "BAD unknown use";
 	}
-	if (either && (use <= 6 || use == 12)) expect = '?';
+	if (either && (use <= 6 || use == 12 || use >= 23)) expect = '?';
 	bool unchanged = rowsOf(t) == before;
 	return verdict(expect, o, unchanged, std::string("dt mut=") + mname + " use=" + uname + (indexed ? " indexed" : ""));
 }
